@@ -438,3 +438,55 @@ check(
     ),
     assumptions=CLIENT_ASSUME,
 )
+
+check(
+    "C04", "failed query => closed, or open exactly at a packet boundary", "fault_enumeration",
+    rule=("Gated execution inside synctest bubbles: client goroutines park at ~25 kinds of gates (net.Conn Read/Write/"
+          "SetReadDeadline/SetWriteDeadline/LocalAddr, every user callback, every log point of a gating zapcore.Core used as "
+          "Query.Logger); after synctest.Wait() the enabled actions {release a parked goroutine, emit the next server packet, "
+          "inject the fault} are computed and rapid draws one, so a run is a pure function of the draws. Scenarios {select, "
+          "insert with schema exchange, streaming insert of 1-3 rounds} x compression {off, LZ4, ZSTD, None} x telemetry "
+          "on/off x context with/without deadline x read timeout {3s, 200ms}; ONE fault per run from {server stream cut after "
+          "k bytes, client write failing after k bytes, j-th callback failing, exception arriving at any scheduler step (also "
+          "before the query is written), unknown packet code, valid but unhandled code (Hello/Pong/Extremes/TablesStatus/"
+          "PartUUIDs/ReadTask), undecodable block then close, 1-3 surplus header blocks}. Distinct = hash of (scenario, fault, "
+          "schedule). Non-trivial = the fault took effect and both the sender and the receiver ran after gating started."),
+    quick=[unit("client", "^TestC04", checks=5000, timeout=900)],
+    thorough=[unit("client", "^TestC04", checks=80000, timeout=8000, shards=16)],
+    manifest=dict(
+        text="Fault enumeration over scenarios x fault kinds x fault positions x gate-level schedules with the oracle: Do "
+             "returns within readTimeout x (packets+3) + 3s of virtual time; then either the client is closed (Close was called, "
+             "further Ping/Do return ErrClosed and the connection records no further call of any kind) or it is open and "
+             "everything written parses as whole packets, a follow-up Ping makes the connection receive exactly the byte 04, "
+             "gets its Pong, and a follow-up Do succeeds.",
+        design_ref="DESIGN.md 4 C04",
+        note="Schedules are enumerated at gate granularity (not instruction granularity); two simultaneous faults are not "
+             "combined; a server that stalls inside a packet is excluded (no deadline there by design). Close() is not gated "
+             "(it runs under the client's mutex).",
+        technique="deterministic schedule + fault exploration (rapid-drawn) on a simulated connection with virtual time",
+    ),
+    assumptions=CLIENT_ASSUME,
+)
+
+check(
+    "C10", "cancellation: prompt return, Cancel packet, closed connection, no leak", "fault_enumeration",
+    rule=("Same gated machinery as C04 on fault-free scenarios {select, insert, streaming insert} x compression x telemetry x "
+          "read timeout {3s, 50ms}: the context is cancelled (cancel()) or its deadline expires (virtual clock) at a "
+          "rapid-drawn scheduler step 0..80, i.e. before/after every client write, server packet, callback and log point; "
+          "second property for cancellation during the handshake (Connect and Dial, server answering or silent). Distinct = "
+          "hash of (scenario, kind, schedule). Non-trivial = the call failed because of the cancellation while at least one "
+          "server packet was still to come."),
+    quick=[unit("client", "^TestC10", checks=4000, timeout=900)],
+    thorough=[unit("client", "^TestC10", checks=80000, timeout=8000, shards=16)],
+    manifest=dict(
+        text="Oracle per run: Do returns within readTimeout + 2s of the cancellation instant on the virtual clock; the error "
+             "matches ctx.Err(); the client is closed and Close was called on the connection; the Cancel packet is judged per "
+             "write call (one write of exactly 03 after the cancellation, or a refused attempt; all other bytes in order a "
+             "prefix of a well-formed packet sequence); after synctest.Wait no goroutine with ch-go frames remains.",
+        design_ref="DESIGN.md 4 C10",
+        note="ReadTimeout < 0 (no timeout) is excluded: the statement presupposes one. A write attempted by the sender after "
+             "Close (refused by the connection) is not counted as a violation: the statement does not forbid it.",
+        technique="deterministic schedule exploration of cancellation instants (rapid-drawn) with virtual time and goroutine-leak oracle",
+    ),
+    assumptions=CLIENT_ASSUME,
+)
